@@ -47,6 +47,63 @@ theorem offered_to_subscribers (pools : List PoolSt) (c : Cls) (i : Nat) :
 example : (0 : Nat) ∈ notified (callbacks [{ name := "a", bufSize := 3, subs := [.TICK] }]) .TICK_5 := by decide
 example : (0 : Nat) ∉ notified (callbacks [{ name := "a", bufSize := 3, subs := [.TICK_60] }]) .TICK_5 := by decide
 
+/-! ### the documented type hierarchy
+
+  `offered_to_subscribers` is relative to the class table regenerated from supervisor/events.py: if a class silently
+  gains a base class, model and code agree and the theorem still holds -- about the wrong hierarchy.  The statement's
+  "its type or one of its abstract supertypes" is what docs/events.rst documents ("*Subtype Of*: ``X``" in every
+  "``T`` Event Type" section); that table is regenerated as `Sv.Gen.Events.documented` from the *documentation* and
+  the theorems below tie the classes to it. -/
+
+/-- the registered event types are exactly the documented ones: every `EventTypes` member has its section in
+    docs/events.rst, every documented type is registered, no type is documented twice -/
+theorem registered_types_are_the_documented_ones :
+    (∀ c : Cls, c.name ∈ documented.map (·.1)) ∧
+    (∀ n ∈ documented.map (·.1), ∃ c : Cls, c.name = n) ∧
+    (documented.map (·.1)).Nodup := by
+  refine ⟨fun c => by cases c <;> decide, ?_, by decide⟩
+  have h : ((documented.map (·.1)).all fun n => (Cls.all.map Cls.name).contains n) = true := by decide
+  intro n hn
+  have := List.all_eq_true.mp h n hn
+  simp only [List.contains_iff_mem, List.mem_map] at this
+  obtain ⟨c, _, hc⟩ := this
+  exact ⟨c, hc⟩
+
+/-- every documented supertype is itself a documented type (the "*Subtype Of*" lines name sections that exist) -/
+theorem documented_parents_are_documented :
+    (documented.all fun e => match e.2 with
+      | some p => (documented.map (·.1)).contains p
+      | none => true) = true := by decide
+
+/-- **ancestors_are_documented**: for every registered type, the types an event of that type is an instance of
+    (the registered classes in its `__mro__`, i.e. what `notify`'s `isinstance` test accepts) are, in order, the
+    type itself and its documented supertypes -- no more (a class that gains a base class) and no fewer. -/
+theorem ancestors_are_documented (c : Cls) : c.ancestors.map Cls.name = docChain c := by cases c <;> decide
+
+/-- the nearest registered proper ancestor of every type is its documented parent -/
+theorem parent_is_documented_parent (c : Cls) : (c.ancestors.drop 1).head? = documentedParent c := by
+  cases c <;> decide
+
+/-- `isinstance` over the classes is "is a" over the documentation -/
+theorem isInstance_iff_documented (c t : Cls) : isInstance c t = docInstance c t := by
+  cases c <;> cases t <;> decide
+
+/-- **offered_to_documented_subscribers**: `notify` runs pool `i`'s `_acceptEvent` for an event of type `c` exactly
+    when one of the types the pool is subscribed to is `c` or one of the supertypes docs/events.rst gives `c` --
+    and for no other pool.  (`docInstance` is computed from the documentation table alone.) -/
+theorem offered_to_documented_subscribers (pools : List PoolSt) (c : Cls) (i : Nat) :
+    i ∈ notified (callbacks pools) c ↔ ∃ p, pools[i]? = some p ∧ ∃ t ∈ p.subs, docInstance c t = true := by
+  rw [offered_to_subscribers]
+  simp only [isInstance_iff_documented]
+
+/-- a pool subscribed to the abstract `PROCESS_LOG` type is offered log events and no communication event;
+    a pool subscribed to `PROCESS_COMMUNICATION` the converse -/
+example :
+    let pools : List PoolSt := [{ name := "log", bufSize := 3, subs := [.PROCESS_LOG] },
+                                { name := "com", bufSize := 3, subs := [.PROCESS_COMMUNICATION] }]
+    notified (callbacks pools) .PROCESS_LOG_STDOUT = [0] ∧ notified (callbacks pools) .PROCESS_COMMUNICATION_STDOUT = [1] ∧
+    docInstance .PROCESS_COMMUNICATION_STDOUT .PROCESS_LOG = false := by decide
+
 /-- **buffer_bounded**: for every history (every list of operations: notifications, listener output in any
     fragmentation, pool transitions, pipe faults, process state changes, deaths, respawns) every pool whose
     `buffer_size` is at least 1 holds at most `buffer_size` undelivered events, provided it did at the start
